@@ -50,7 +50,7 @@ def run(c):
         c.cov["generated_types"] = stats
         for k, v, _ in panics[:2]: c.sample({"request": k, "impl": v})
         if not panics: c.sample({"request": sel[0][0], "impl": sel[0][1][:200]})
-    c.cov["partial_obligations"] = ["core half: host-side directions of Generator::call (export-lower, import-lift; used by no backend) have no totality theorem; backend half: each backend's own Bindgen::emit arms are searched under catch_unwind, not proved"]
+    c.cov["partial_obligations"] = ["backend half: each backend's own Bindgen::emit arms are searched under catch_unwind, not proved"]
     c.cov["search"] = "every abi entry point under catch_unwind on seeded worlds; backend half: every generator under catch_unwind"
     c.assumptions += ["what counts as 'used by backends' for Generator::call is the set of (variant, direction, async) combinations read off the 13 abi::call call sites of crates/*/src (abi_common.USED_CALLS: import-lower-sync, export-lift-sync, GuestExportAsync-lift-async, C#'s GuestExport-lift-async); hand-maintained, not extracted"]
     bp = os.path.join(os.path.dirname(__file__), "c16_backends.py")
